@@ -23,9 +23,6 @@ Notation st := (st P).
 
 Implicit Types (s : st) (w : worker) (pol : policy).
 
-Definition isP (a : wact) : bool := match a with WAcqP | WRelP => true | _ => false end.
-Definition usesP (l : list wact) : bool := existsb isP l.
-
 (** after the snapshot is dropped the task only ends *)
 Fixpoint drop_tail (l : list wact) : bool :=
   match l with
@@ -64,8 +61,6 @@ Proof.
   - apply andb_true_iff in H. destruct H as [H1 H4]. apply andb_true_iff in H1. destruct H1 as [H1 H3].
     rewrite H1, H4. cbn. destruct (usesP sk); cbn in *; auto. rewrite (Hb H3). reflexivity.
 Qed.
-
-Definition Pind (w : worker) : bool := usesP (rem w) || wp w.
 
 Definition W (w : worker) : Prop :=
   wf_worker w = true /\ drop_tail (rem w) = true /\ (wq w = false -> rem w = [] \/ rem w = [WEnd]).
@@ -260,6 +255,15 @@ Theorem tasks_never_blocked pol (items : list (item P)) s i w :
   exists s', exec pol (LWorker i) s = Some s'.
 Proof.
   intros Hr. apply never_blocked. eapply sinv_reach; [apply script_of_strict|exact Hr].
+Qed.
+
+(** the critical sections of the published_files mutex are executed one task at a time, in spawn order: while a
+    task still has business with the mutex no other task has (so the i-th diagnostics task reads exactly what the
+    (i-1)-th wrote: the sequential threading of [published] in ServerProto.items_of) *)
+Theorem one_mutex_user pol (items : list (item P)) s :
+  reach pol (init (script_of items)) s -> length (filter (@Pind P) (ws s)) <= 1.
+Proof.
+  intros Hr. destruct (sinv_reach (script_of_strict items true) Hr) as (_ & _ & _ & _ & H). exact H.
 Qed.
 
 End WaitFree.
